@@ -8,7 +8,6 @@ import (
 	"strings"
 
 	cli "github.com/jawher/mow.cli"
-	"github.com/jawher/mow.cli/internal/lexer"
 	"github.com/jawher/mow.cli/internal/zverif/ref"
 )
 
@@ -130,9 +129,9 @@ func syntaxCase(c *Ctx, spec string, ds *declSet) {
 	c.Count("evaluations", 1)
 	key := fmt.Sprintf("spec=%q decl={%s}", spec, ds.name)
 	cs := func() Case { return Case{"spec": spec, "spec_hex": hx(spec), "decl": ds.name} }
-	var pe *lexer.ParseError
+	var pe *specErr
 	if o.Panicked {
-		pe, _ = o.PanicVal.(*lexer.ParseError)
+		pe = asSpecErr(o.PanicVal)
 		if pe == nil {
 			c.Violation("C08", key, cs(), "Run returns or panics with a positioned spec error", "panic: "+safeSprint(o.PanicVal))
 			return
@@ -167,60 +166,17 @@ func syntaxCase(c *Ctx, spec string, ds *declSet) {
 		}
 		return
 	}
-	// accepted: the library's own tokens must partition the non-blank bytes
-	toks, err := lexer.Tokenize(spec)
-	if err != nil {
-		c.Violation("C08", key+" (tokens)", cs(), "Tokenize succeeds on a spec that compiles", err.Error())
-		return
-	}
-	pos := 0
-	bad := ""
-	for _, t := range toks {
-		text := t.Val
-		if t.Typ == lexer.TTOptSeq {
-			text = "-" + t.Val
-		}
-		for pos < t.Pos && pos < len(spec) {
-			if spec[pos] != ' ' && spec[pos] != '\t' {
-				bad = fmt.Sprintf("byte %d (%q) belongs to no token", pos, spec[pos])
-			}
-			pos++
-		}
-		if t.Pos < pos {
-			bad = fmt.Sprintf("token %v overlaps the previous one", t)
-		}
-		if t.Pos+len(text) > len(spec) || spec[t.Pos:t.Pos+len(text)] != text {
-			bad = fmt.Sprintf("token %v does not report the source text at its position", t)
-		}
-		pos = t.Pos + len(text)
-		if bad != "" {
-			break
-		}
-	}
-	for bad == "" && pos < len(spec) {
-		if spec[pos] != ' ' && spec[pos] != '\t' {
-			bad = fmt.Sprintf("byte %d (%q) belongs to no token", pos, spec[pos])
-		}
-		pos++
-	}
-	if bad == "" && len(toks) != len(v.Tokens) {
-		bad = fmt.Sprintf("%d tokens reported, the reference reads %d", len(toks), len(v.Tokens))
-	}
-	if bad != "" {
-		c.Violation("C08", key+" (tokens)", cs(), "every non-blank byte belongs to exactly one token reported with its text and position", bad)
-	}
-	if c.WantSample("accepted") && len(toks) >= 3 {
-		c.Sample("accepted", Case{"spec": spec, "decl": ds.name, "tokens": fmt.Sprint(toks)})
-	}
+	// accepted: the library's own tokens must partition the non-blank bytes (needs the internal lexer API)
+	tokenPartition(c, spec, ds, key, cs, len(v.Tokens))
 }
 
-func posOf(pe *lexer.ParseError) int {
+func posOf(pe *specErr) int {
 	if pe == nil {
 		return -1
 	}
 	return pe.Pos
 }
-func msgOf(pe *lexer.ParseError) string {
+func msgOf(pe *specErr) string {
 	if pe == nil {
 		return ""
 	}
